@@ -36,6 +36,45 @@ class Obj:
         return "Obj(" + ", ".join(f"{k}={v!r}" for k, v in self.__dict__.items() if not isinstance(v, (Obj, tuple))) + ")"
 
 
+class EnumMember(Obj):
+    """Model of one member of an SpsdkEnum class: tag / label / description / name; identity equality, and - like SpsdkEnum -
+    equal to its own tag and label."""
+    def __eq__(self, other: Any) -> bool:
+        if isinstance(other, EnumMember):
+            return self is other
+        if isinstance(other, bool):
+            return False
+        if isinstance(other, int):
+            return self.__dict__["tag"] == other
+        if isinstance(other, str):
+            return self.__dict__["label"] == other
+        return False
+
+    def __ne__(self, other: Any) -> bool:
+        return not self.__eq__(other)
+
+    def __hash__(self) -> int:
+        return id(self)
+
+    def __repr__(self) -> str:
+        return f"<{self.__dict__.get('_enum')}.{self.__dict__.get('name')}>"
+
+
+class EnumModel(Obj):
+    """Model of an SpsdkEnum class: its members in definition order."""
+    def members(self) -> tuple:
+        return self.__dict__["_members"]
+
+    def __contains__(self, x: Any) -> bool:
+        return any(m is x for m in self.members()) or (isinstance(x, int) and not isinstance(x, bool) and any(m.tag == x for m in self.members()))
+
+    def __iter__(self):
+        return iter(self.members())
+
+    def __len__(self) -> int:
+        return len(self.members())
+
+
 class Outcome:
     def __init__(self, kind: str, value: Any = None, node: Optional[ast.AST] = None):
         self.kind = kind  # 'raise' | 'return' | 'fall' | 'continue' | 'break'
@@ -416,6 +455,19 @@ class Evaluator:
                 if isinstance(v, Obj):
                     return False  # a model object is none of the builtin types
                 return isinstance(v, tuple(tys[n.id] for n in names))
+            # classes of the analysed program: an enum class (model) or a class the value's own class derives from
+            try:
+                kinds = [self.ev(n) for n in (names or [])]
+            except Unsupported:
+                kinds = []
+            if kinds and all(isinstance(k_, EnumModel) for k_ in kinds):
+                v = self.ev(e.args[0])
+                return isinstance(v, EnumMember) and any(v in k_ for k_ in kinds)
+            hook = getattr(self, "call_value", None)
+            if hook is not None:
+                r = hook(e, self)
+                if r is not NOT_MODELLED:
+                    return r
             raise Unsupported(e)
         if isinstance(e, ast.Call) and isinstance(e.func, ast.Attribute) and e.func.attr == "join" and len(e.args) == 1 and not e.keywords \
                 and ast.unparse(e.func.value) in ("b''", "bytes()", "bytearray()", "''"):
@@ -591,6 +643,16 @@ class Evaluator:
                     v = self.ev(st.value.args[0])
                     self.env[f.value.id] = self.env[f.value.id] + ((v,) if f.attr == "append" else tuple(v))
                     return None
+                if isinstance(f, ast.Attribute) and f.attr in ("append", "extend") and isinstance(f.value, ast.Attribute) and len(st.value.args) == 1 and not st.value.keywords:
+                    # the same on a sequence held in an attribute of a model object: obj.items.append(v)
+                    try:
+                        holder = self.ev(f.value.value)
+                    except Unsupported:
+                        holder = None
+                    if isinstance(holder, Obj) and isinstance(holder.__dict__.get(f.value.attr), tuple):
+                        v = self.ev(st.value.args[0])
+                        holder.__dict__[f.value.attr] = holder.__dict__[f.value.attr] + ((v,) if f.attr == "append" else tuple(v))
+                        return None
                 if isinstance(f, ast.Attribute) and f.attr in ("extend", "append", "reverse", "clear") and isinstance(f.value, ast.Name) and isinstance(self.env.get(f.value.id), bytearray) \
                         and not st.value.keywords and len(st.value.args) == (0 if f.attr in ("reverse", "clear") else 1):
                     buf = self.env[f.value.id]
@@ -863,6 +925,9 @@ class Evaluator:
                 except Unsupported:
                     base = None
                 if isinstance(base, Obj):
+                    hook = getattr(getattr(self, "call_value", None), "store_attr", None)
+                    if hook is not None and tgt.attr not in base.__dict__ and hook(base, tgt.attr, value, self, st):
+                        return  # a property setter of the object's class took the value
                     if must_exist and tgt.attr not in base.__dict__:
                         raise Unsupported(st)
                     base.__dict__[tgt.attr] = value
